@@ -24,9 +24,13 @@
 (*                        {}, "none" (HEAD: no body), "str" (text/html or    *)
 (*                        text/plain of a load balancer), "bytes", "list";   *)
 (*                        for k = "bulk": the shape of the failed items'     *)
-(*                        "error" member: "es" (object) or "errstr" (string);*)
+(*                        "error" member: "es" (object) or "errstr" (string),*)
+(*                        "esmany": object, more than ten failed items per   *)
+(*                        status; for k = "connError" / "connTimeout": the   *)
+(*                        concrete exception class ("ConnectionError",       *)
+(*                        "TlsError" (= SSLError), "ConnectionTimeout");     *)
 (*                        "" otherwise.  The documented reaction does not    *)
-(*                        depend on the shape.                               *)
+(*                        depend on the shape / class.                       *)
 (* Pauses are counted in 1/1024 s (Unit), so 2^n + random.random() is an    *)
 (* integer for the dyadic random values the harness injects.                *)
 (***************************************************************************)
